@@ -30,3 +30,5 @@ func sortStrings(s []string) {
 		}
 	}
 }
+
+func hasBadStr(n interface{ Pos() gotokenPos; End() gotokenPos }) string { return oracleHasBad(n) }
